@@ -333,6 +333,14 @@ def templates():
         # the same unknown value through every public wrapper that forwards options to find_extrema
         out += [T('compute_cyclepoints', 'first_extrema', v, False, lambda c, v=v: compute_cyclepoints(c.x, c.fs, c.fr, first_extrema=v)),
                 T('compute_cyclepoints', 'first_extrema+boundary', v, False, lambda c, v=v: compute_cyclepoints(c.x, c.fs, c.fr, boundary=0, first_extrema=v))]
+    for v in ['fail', 'Peak', '', 0]:
+        # ... also when the boundary leaves no extremum at all (nothing to return is no reason to accept an unknown option)
+        out += [T('find_extrema[boundary >= half the recording]', 'first_extrema', v, False, lambda c, v=v: find_extrema(c.x, c.fs, c.fr, boundary=len(c.x) // 2 + 1, first_extrema=v))]
+    for lo, hi in [(1.000005, 1.0), (2.000001, 2.0), (float(np.nextafter(1.0, 2.0)), 1.0), (0.3, 3 * 0.1 - 1e-7), (1.5, 1.0)]:
+        # reversed amplitude thresholds, however slightly
+        out += [T('compute_burst_fraction', 'amp_threshes', (lo, hi), False, lambda c, lo=lo, hi=hi: compute_burst_fraction(c.df_samples, c.x, c.fs, c.fr, amp_threshes=(lo, hi))),
+                T('compute_features[amp]', 'burst_kwargs.amp_threshes', (lo, hi), False, lambda c, lo=lo, hi=hi: compute_features(c.x, c.fs, c.fr, burst_method='amp', burst_kwargs={'amp_threshes': (lo, hi)},
+                                                                                                                                      threshold_kwargs={'burst_fraction_threshold': 1, 'min_n_cycles': 3}))]
     for v in ['peak', 'trough', None]:
         out += [T('find_extrema', 'first_extrema', v, True, lambda c, v=v: find_extrema(c.x, c.fs, c.fr, first_extrema=v)),
                 T('compute_shape_features', 'find_extrema_kwargs.first_extrema', v, False, lambda c, v=v: compute_shape_features(c.x, c.fs, c.fr, find_extrema_kwargs={'first_extrema': v}))]
